@@ -317,6 +317,9 @@ def _obs_gen(cfg, seed, n, key=None):
 
 def _obs_project(g, batch, regs, b):
     rin, rval, req = regs
+    order = [int(v) + 1 for v in _np(g.indices)]
+    if not (isinstance(batch, dict) and batch.get("pinn_in") is not None and batch.get("val") is not None):
+        return _evst(g.curr_idx, order, [], [], [0])       # a network WITH observations received no batch: zero rows (clause BatchSize)
     pin = _np(batch["pinn_in"])
     val = _np(batch["val"])
     rows = []
@@ -326,7 +329,6 @@ def _obs_project(g, batch, regs, b):
             a = _np(batch["eq_params"][k]) if k in batch["eq_params"] else None
             row.append(req[k].id(a[j]) if a is not None and j < a.shape[0] else 0)
         rows.append(row)
-    order = [int(v) + 1 for v in _np(g.indices)]
     return _evst(g.curr_idx, order, [r[0] for r in rows], rows, list(pin.shape))
 
 
@@ -371,6 +373,7 @@ def case_multiobs(cfg):
     names = list(pins)
     vals = {k: vals[k] for k in names[::-1]} if rot & 1 else vals
     eqs = {k: eqs[k] for k in names[1:] + names[:1]} if rot & 2 else eqs
+    pins = {k: pins[k] for k in names[-1:] + names[:-1]} if rot & 4 else pins      # the inputs dictionary itself not in sorted key order
     try:
         g = DataGeneratorObservationsMultiPINNs(cfg["b"], pins, vals, observed_eq_params_dict=eqs,
                                                 key=jax.random.PRNGKey(cfg["seed"]))
